@@ -299,6 +299,20 @@ Chains(b) ==     \* view chains starting at handle b; each a sequence of stateme
    << [k |-> "op", h |-> b + 1, f |-> "getitem", a |-> <<Opnd(b)>>, ix |-> Basic(<<Full, SL(FALSE, 1, TRUE, 0, TRUE, 1)>>)] >>,
    << [k |-> "op", h |-> b + 1, f |-> "T", a |-> <<Opnd(b)>>],
       [k |-> "op", h |-> b + 2, f |-> "getitem", a |-> <<Opnd(b + 1)>>, ix |-> Basic(<<IntI(-1)>>)] >>}
+\* .shape assigned on a view of a view, then another in-place update somewhere in the family
+ShapeThenUpdate ==
+  {<< Leaf(1, <<8>>, "NZ", FALSE),
+      [k |-> "op", h |-> 2, f |-> "getitem", a |-> <<Opnd(1)>>, ix |-> Basic(<<c[1]>>)],
+      [k |-> "op", h |-> 3, f |-> "getitem", a |-> <<Opnd(2)>>, ix |-> Basic(<<c[2]>>)],
+      [k |-> "setshape", t |-> 3, sh |-> <<2, 3>>],
+      upd,
+      [k |-> "op", h |-> 4, f |-> "multiply", a |-> <<Opnd(3), Opnd(3)>>] >> :
+     c \in {<<SL(TRUE, 0, TRUE, 0, FALSE, -1), SL(FALSE, 1, FALSE, 7, TRUE, 1)>>,      \* x[::-1][1:7]
+            <<SL(FALSE, 1, FALSE, 7, TRUE, 1), SL(TRUE, 0, TRUE, 0, FALSE, -1)>>,      \* x[1:7][::-1]
+            <<SL(FALSE, 2, TRUE, 0, TRUE, 1), Full>>},                                  \* x[2:][:]
+     upd \in {[k |-> "setitem", t |-> 1, ix |-> Basic(<<SL(FALSE, 3, FALSE, 6, TRUE, 1)>>), val |-> [s |-> Q(-1)]],
+              [k |-> "setitem", t |-> 3, ix |-> Basic(<<IntI(0), SL(FALSE, 1, TRUE, 0, TRUE, 1)>>), val |-> [s |-> Q(7)]],
+              [k |-> "aug", t |-> 2, f |-> "multiply", val |-> [s |-> Q(2)]]}}
 InPlaceProgs ==
   UNION {{<< LeafO(1, <<2, 3>>, "NZ", ord) >> \o ch \o
             << IF upd = "aug" THEN [k |-> "aug", t |-> 1 + Len(ch), f |-> "multiply", val |-> Opnd(1 + Len(ch))]
@@ -312,7 +326,7 @@ Progs == CASE Group = "binary" -> BinProgs [] Group = "unary" -> UnProgs [] Grou
            [] Group = "whereout" -> WhereOutProgs [] Group = "move" -> MoveProgs
            [] Group = "activation" -> ActProgs [] Group = "cumulative" -> CumProgs [] Group = "sequence" -> SeqProgs
            [] Group = "einsum" -> EinProgs [] Group = "conv" -> ConvProgs [] Group = "maxpool" -> PoolProgs
-           [] Group = "loss" -> LossProgs [] Group = "inplace" -> InPlaceProgs
+           [] Group = "loss" -> LossProgs [] Group = "inplace" -> InPlaceProgs \cup ShapeThenUpdate
 
 Init == cellprog \in Progs
 Next == UNCHANGED cellprog
